@@ -63,6 +63,18 @@ func verifShortSha(name string) string {
 	return s
 }
 
+// verifOidPair: two different object ids (they differ in their first digit, the
+// other 63 digits are arbitrary)
+func verifOidPair(name1, name2 string) (string, string) {
+	a := verifNondetString(name1)
+	verifAssume(len(a) == 63)
+	verifAssumeAlphabet(a, "09af")
+	b := verifNondetString(name2)
+	verifAssume(len(b) == 63)
+	verifAssumeAlphabet(b, "09af")
+	return "a" + a, "b" + b
+}
+
 func verifPointerHunk(sign string, oid, size string) string {
 	return sign + "version https://git-lfs.github.com/spec/v1\n" + sign + "oid sha256:" + oid + "\n" + sign + "size " + size + "\n"
 }
@@ -82,13 +94,7 @@ func VerifC05_StashScan() {
 		shas = append(shas, s)
 		reflog += s + "\n"
 	}
-	oidW := verifNondetString("oid.worktree")
-	verifAssume(len(oidW) == 64)
-	verifAssumeAlphabet(oidW, "09af")
-	oidU := verifNondetString("oid.untracked")
-	verifAssume(len(oidU) == 64)
-	verifAssumeAlphabet(oidU, "09af")
-	verifAssume(oidU != oidW)
+	oidW, oidU := verifOidPair("oid.worktree", "oid.untracked")
 	const commit = "lfs-commit-sha: 1111111111111111111111111111111111111111 2222222222222222222222222222222222222222\n\n"
 	firstParentDiff := commit + "diff --git a/w.bin b/w.bin\nindex 0000000..1111111 100644\n--- a/w.bin\n+++ b/w.bin\n@@ -1,3 +1,3 @@\n" + verifPointerHunk("+", oidW, "12")
 	otherParentsDiff := commit + "diff --git a/u.bin b/u.bin\nnew file mode 100644\nindex 0000000..2222222\n--- /dev/null\n+++ b/u.bin\n@@ -0,0 +1,3 @@\n" + verifPointerHunk("+", oidU, "34")
@@ -134,13 +140,7 @@ func VerifC05_StashScan() {
 // side of the diffs.
 func VerifC05_UnpushedAndPreviousArgs() {
 	remote := []string{"origin", "backup", ""}[verifChoose("remote", 3)]
-	oid := verifNondetString("oid")
-	verifAssume(len(oid) == 64)
-	verifAssumeAlphabet(oid, "09af")
-	old := verifNondetString("oid.old")
-	verifAssume(len(old) == 64)
-	verifAssumeAlphabet(old, "09af")
-	verifAssume(old != oid)
+	oid, old := verifOidPair("oid", "oid.old")
 	const commit = "lfs-commit-sha: 1111111111111111111111111111111111111111 2222222222222222222222222222222222222222\n\n"
 	changed := commit + "diff --git a/f.bin b/f.bin\nindex 1111111..2222222 100644\n--- a/f.bin\n+++ b/f.bin\n@@ -1,3 +1,3 @@\n version https://git-lfs.github.com/spec/v1\n-oid sha256:" + old + "\n-size 5\n+oid sha256:" + oid + "\n+size 7\n"
 	git.VerifLogCalls = nil
@@ -181,13 +181,7 @@ func VerifC05_UnpushedAndPreviousArgs() {
 // unpushed commit is found - also when one commit adds several - so that
 // prune retains it.
 func VerifC05_UnpushedFound() {
-	oid1 := verifNondetString("oid.1")
-	verifAssume(len(oid1) == 64)
-	verifAssumeAlphabet(oid1, "09af")
-	oid2 := verifNondetString("oid.2")
-	verifAssume(len(oid2) == 64)
-	verifAssumeAlphabet(oid2, "09af")
-	verifAssume(oid1 != oid2)
+	oid1, oid2 := verifOidPair("oid.1", "oid.2")
 	nfiles := 1 + verifChoose("files.in.commit", 2)
 	userConfig := verifChoose("user.diff.config", 3) // 0 default, 1 diff.noprefix, 2 diff.mnemonicPrefix
 	git.VerifLogCalls = nil
